@@ -39,15 +39,22 @@ Dst == Fmt(cur.ds = 1, cur.dd)
 
 (* Each checker returns the class of the first violated clause, or "ok".        *)
 (* -------- C06 / C07 ----------------------------------------------------------- *)
+\* C06 and C07 speak about the same points: every violated clause is named (joined by "_"), so that each property's
+\* check sees the clauses that are its own
+J(a, b) == IF a = "" THEN b ELSE IF b = "" THEN a ELSE a \o "_" \o b
 QuantP(e) ==
     LET x == ZOfJson(e.x)  y == ZOfJson(e.y)  a == Amp(S, x)  b == Amp(Dst, y) IN
     IF ~InRange(S, x) THEN "order"
     ELSE IF ~InRange(Dst, y) THEN "range"
-    ELSE IF ~QuantAccurate(S, Dst, x, y) THEN "accuracy"
-    ELSE IF ~QuantLevels(S, Dst, x, y) THEN "level"
-    ELSE IF prev.ok /\ ~ZLt(prev.a, a) THEN "order"
-    ELSE IF prev.ok /\ ~ZLe(prev.b, b) THEN "mono"
-    ELSE "ok"
+    ELSE LET all == J(J(IF ~QuantAccurate(S, Dst, x, y) THEN "accuracy" ELSE "",
+                        IF ~QuantLevels(S, Dst, x, y) THEN "level" ELSE ""),
+                      \* an ordered scan may repeat a source value (the same value converted at another position or in
+                      \* another call): order preservation then demands the same result
+                      IF prev.ok /\ (\/ (ZLt(prev.a, a) /\ ~ZLe(prev.b, b))
+                                     \/ (ZEq(prev.a, a) /\ ~ZEq(prev.b, b))) THEN "mono" ELSE "") IN
+         IF all # "" THEN all
+         ELSE IF prev.ok /\ ZLt(a, prev.a) THEN "order"
+         ELSE "ok"
 QuantPNext(e) == [ok |-> TRUE, a |-> Amp(S, ZOfJson(e.x)), b |-> Amp(Dst, ZOfJson(e.y))]
 
 QuantSeg(e) ==
@@ -56,17 +63,19 @@ QuantSeg(e) ==
         a0 == Amp(S, x0)  a1 == Amp(S, x1)  b0 == Amp(Dst, y0) IN
     IF ~(InRange(S, x0) /\ InRange(S, x1) /\ ZLe(x0, x1)) THEN "order"
     ELSE IF ~(InRange(Dst, y0) /\ InRange(Dst, y1) /\ ~k.neg) THEN "range"
-    ELSE IF ~(QuantAccurate(S, Dst, x0, y0) /\ QuantAccurate(S, Dst, x1, y1)) THEN "accuracy"
-    \* interior of the run: runs of one or two elements are covered by their end points; longer ones
-    \* must be constant when narrowing (both envelope bounds are monotone in the input) and have slope 1
-    \* at equal depth
-    ELSE IF S.d > Dst.d /\ ~(ZLe(ZSub(x1, x0), Z1) \/ ZEq(k, Z0)) THEN "accuracy"
-    ELSE IF S.d = Dst.d /\ ~(ZLe(ZSub(x1, x0), Z1) \/ ZEq(k, Z1)) THEN "accuracy"
-    ELSE IF ~(QuantLevels(S, Dst, x0, y0) /\ QuantLevels(S, Dst, x1, y1)) THEN "level"
-    ELSE IF ZLe(a0, Z0) /\ ZLe(Z0, a1) /\ ~ZEq(ZSub(b0, ZMul(k, a0)), Z0) THEN "level"   \* amplitude 0 inside the run
-    ELSE IF prev.ok /\ ~ZLt(prev.a, a0) THEN "order"
-    ELSE IF prev.ok /\ ~ZLe(prev.b, b0) THEN "mono"
-    ELSE "ok"
+    ELSE LET acc == \/ ~(QuantAccurate(S, Dst, x0, y0) /\ QuantAccurate(S, Dst, x1, y1))
+                    \* interior of the run: runs of one or two elements are covered by their end points; longer ones
+                    \* must be constant when narrowing (both envelope bounds are monotone in the input) and have
+                    \* slope 1 at equal depth
+                    \/ (S.d > Dst.d /\ ~(ZLe(ZSub(x1, x0), Z1) \/ ZEq(k, Z0)))
+                    \/ (S.d = Dst.d /\ ~(ZLe(ZSub(x1, x0), Z1) \/ ZEq(k, Z1)))
+             lev == \/ ~(QuantLevels(S, Dst, x0, y0) /\ QuantLevels(S, Dst, x1, y1))
+                    \/ (ZLe(a0, Z0) /\ ZLe(Z0, a1) /\ ~ZEq(ZSub(b0, ZMul(k, a0)), Z0))   \* amplitude 0 inside the run
+             mon == prev.ok /\ ZLt(prev.a, a0) /\ ~ZLe(prev.b, b0)
+             all == J(J(IF acc THEN "accuracy" ELSE "", IF lev THEN "level" ELSE ""), IF mon THEN "mono" ELSE "") IN
+         IF all # "" THEN all
+         ELSE IF prev.ok /\ ~ZLt(prev.a, a0) THEN "order"
+         ELSE "ok"
 QuantSegNext(e) ==
     LET x0 == ZOfJson(e.x)  x1 == ZOfJson(e.x1)  y0 == ZOfJson(e.y)  k == ZOfJson(e.k) IN
     [ok |-> TRUE, a |-> Amp(S, x1), b |-> Amp(Dst, ZAdd(y0, ZMul(k, ZSub(x1, x0))))]
@@ -85,7 +94,8 @@ FloatFixPoint(f, y) ==
 FloatFixP(e) ==
     LET f == FOf(e.f)  y == ZOfJson(e.y)  r == FloatFixPoint(f, y) IN
     IF r # "ok" THEN r
-    ELSE IF prev.ok /\ FCmp(prev.f, f) >= 0 THEN "order"
+    ELSE IF prev.ok /\ FCmp(prev.f, f) > 0 THEN "order"
+    ELSE IF prev.ok /\ FCmp(prev.f, f) = 0 /\ ~ZEq(prev.y, y) THEN "mono"     \* the same value converted elsewhere: same result
     ELSE IF prev.ok /\ ~ZLe(prev.y, y) THEN "mono"
     ELSE "ok"
 FloatFixSeg(e) ==         \* f..f1 strictly inside (-1,1), one sign, constant output y
@@ -116,7 +126,8 @@ FixFloatP(e) ==
     ELSE IF ZEq(x, Highest(S)) /\ ~DEq(g.d, D1) THEN "level"
     ELSE IF ZEq(a, Z0) /\ g.d.mag # <<>> THEN "level"
     ELSE IF ~FixFloatAccurate(S, x, g.d, cur.p) THEN "accuracy"
-    ELSE IF prev.ok /\ ~ZLt(prev.a, a) THEN "order"
+    ELSE IF prev.ok /\ ZLt(a, prev.a) THEN "order"
+    ELSE IF prev.ok /\ ZEq(prev.a, a) THEN (IF DEq(prev.g, g.d) THEN "ok" ELSE "mono")   \* the same code converted elsewhere
     ELSE IF prev.ok /\ ~DLe(prev.g, g.d) THEN "mono"
     ELSE IF prev.ok /\ S.d <= 32 /\ cur.p = 53 /\ ~DLt(prev.g, g.d) THEN "strict"
     ELSE "ok"
